@@ -28,7 +28,7 @@ INJECT = {
     "crates/maybenot/src/dist.rs": ("", _mod("maybenot/dist_kani.rs", vis="pub(crate) ")),
     "crates/maybenot/src/machine.rs": ("", _mod("maybenot/machine_kani.rs", vis="pub(crate) ")),
     "crates/maybenot-simulator/src/lib.rs": (CRATE_ATTR, _mod("simulator/lib_kani.rs")),
-    "crates/maybenot-simulator/src/network.rs": ("", _mod("simulator/network_kani.rs")),
+    "crates/maybenot-simulator/src/network.rs": ("", _mod("simulator/network_kani.rs", vis="pub(crate) ")),
     "crates/maybenot-simulator/src/queue.rs": ("", _mod("simulator/queue_kani.rs", vis="pub(crate) ")),
     "crates/maybenot-ffi/src/lib.rs": (CRATE_ATTR, _mod("ffi/lib_kani.rs")),
 }
